@@ -5,6 +5,8 @@ from rulelib import _rv_operands
 from facts import op_int, op_local, op_place
 import C02
 
+THOROUGH_CFGS = ('min_none', 'min_rten', 'min_onnx')   # reduced-feature builds of the rten crate (thorough tier)
+
 EXPLANATION = (
     "Decides the rewriting-framework clauses of C01 for all graphs, not the numerical equivalence of each fusion pattern: "
     "(out-ids) every Ok exit of GraphOptimizer::optimize passes through GraphMutator::finalize_graph, which installs the tracked "
@@ -278,6 +280,7 @@ def commutative(ctx, fb):
     from runner import load_tables
     sub = type(ctx)(ctx.prop, ctx.tier, ctx.fact_dirs, load_tables('C13'), ctx.repo_hash)
     sub._fbs = ctx._fbs
+    sub.default_cfg = getattr(ctx, 'default_cfg', 'ws')
     C13.run(sub)
     n = 0
     for i in sub.instances:
